@@ -269,8 +269,9 @@ def cv16(prog, rr):
     ws = prog.method("WildcardBinspec", "__init__")
     stores = [n for n in walk_local(ws.node) if isinstance(n, ast.Call) and call_name(n) == "append" and recv_text(n) == "self.specs"]
     rr.inst("WildcardBinspec stores: %s" % [norm(s.args[0]) for s in stores])
+    from sa.ir import erase_records
     for s in stores:
-        a = s.args[0]
+        a = erase_records(prog, s.args[0])
         ok = isinstance(a, ast.Tuple) and len(a.elts) == 2 and isinstance(a.elts[0], ast.BinOp) and isinstance(a.elts[0].op, ast.BitAnd)
         if not ok:
             rr.finding(ws, s, "WildcardBinspec.__init__", "CV16: a (value, mask) pair is stored as %s without normalising the value by the mask; the bin tests (sample & mask) == value, "
